@@ -47,19 +47,30 @@ Proof.
   destruct (has_err es) eqn:E; [left; reflexivity|right; exists es; split; [reflexivity|exact E]].
 Qed.
 
+(* the conflict check of a pessimistic lock request carrying the not-exist assertion *)
+Lemma ccv_notexist_read k0 s0 fu loie ws v cf : desc ws ->
+  ccv (mkCcv k0 s0 fu true AsNotExist loie) true false false ws = COk v cf -> read_writes ws fu = None.
+Proof.
+  intros Hd Ec. pose proof (ccv_ok_below _ _ _ _ _ _ Hd Ec) as Hle. cbn [c_for_update] in Hle.
+  unfold ccv in Ec. destruct ws as [|w0 rest]; [reflexivity|].
+  cbn [c_for_update c_assert c_pess_op as_eqb andb] in Ec.
+  destruct (fu <? w_commit w0); [discriminate|].
+  destruct (ccv_loop _ false None (w0 :: rest) true true true None) as [e|ret] eqn:El; [discriminate|].
+  eapply ccv_loop_notexist; [|exact El]. intros w Hw. specialize (Hle w Hw). lia.
+Qed.
+
 Section InsPoint.
   Variable W : world.
   Hypothesis HW : World_ok W.
   Variables (k : key) (s : ts).
 
-  Record iinv (ks : kstate) : Prop := {
-    ii_nopess : forall l, ks_lock ks = Some l -> l_start l = s -> is_pess l = false;
-    ii_lock : forall l, ks_lock ks = Some l -> l_start l = s ->
-              (forall w, In w (ks_writes ks) -> is_data w = true -> w_commit w <= s) /\ read_writes (ks_writes ks) s = None;
+  (* p = the lock point of s on k (ghost) *)
+  Record iinv (ks : kstate) (p : ts) : Prop := {
+    ii_lock : forall l, ks_lock ks = Some l -> l_start l = s -> read_writes (ks_writes ks) p = None;
     ii_rec : forall w, In w (ks_writes ks) -> w_start w = s -> w_kind w = WPut ->
              read_writes (ks_writes ks) (w_commit w - 1) = None }.
 
-  Lemma iinv_empty : iinv empty_ks.
+  Lemma iinv_empty p : iinv empty_ks p.
   Proof. split; cbn [empty_ks ks_lock ks_writes]; intros; try discriminate; contradiction. Qed.
 
   Lemma data_nonrb w : is_data w = true -> is_rollback w = false.
@@ -68,69 +79,66 @@ Section InsPoint.
   Proof. unfold is_rollback. intros E; rewrite E; reflexivity. Qed.
 
   Lemma step_iinv st c g : wf_store W st -> cmd_in W c -> lock_req_ok st c = true ->
-    ginv W st g -> ins_cmd_ok k s c = true -> iinv (get_ks st k) -> iinv (get_ks (fst (step st c)) k).
+    pess_req_ok (w_pairs W) c = true -> ginv W st g -> ins_cmd_ok k s c = true ->
+    iinv (get_ks st k) (g k s) -> iinv (get_ks (fst (step st c)) k) (ghost_upd g st (fst (step st c)) k s).
   Proof.
-    intros Hwf Hc Hreq Hg Hins Hi.
+    intros Hwf Hc Hreq Hpreq Hg Hins Hi.
     pose proof (step_wf W HW st c Hwf Hc Hreq) as [_ Hwf']. specialize (Hwf' k).
     destruct Hwf as [Hs Hk]. pose proof (Hk k) as Hwk. pose proof (Hg k) as Hkinv.
-    destruct (step_ktrans st c k Hs) as [E|Ht]; [rewrite E; exact Hi|].
+    unfold ghost_upd, lock_of.
+    destruct (step_ktrans st c k Hs) as [E|Ht].
+    { rewrite E. rewrite (gk_upd_same W _ _ s Hkinv). exact Hi. }
     remember (get_ks (fst (step st c)) k) as x eqn:Ex.
-    destruct Hc as [Hcs Hcp]. destruct Hi as [I0 I1 I2].
+    destruct Hc as [Hcs Hcp]. destruct Hi as [I1 I2].
     destruct Ht.
     - (* fresh prewrite *)
-      subst c. destruct (N.eqb_spec s0 s) as [Es|Es].
-      + rewrite Es in *. clear Es. cbn [ins_cmd_ok] in Hins. rewrite N.eqb_refl in Hins. cbn [negb orb] in Hins.
-        apply andb_true_iff in Hins. destruct Hins as [Hfu Hall]. apply N.eqb_eq in Hfu. subst fu.
-        rewrite forallb_forall in Hall. specialize (Hall m H0). rewrite H1, N.eqb_refl in Hall. cbn [negb orb] in Hall.
-        assert (Hop : is_insert m = true) by (unfold is_insert; unfold is_ins_op in Hall; destruct (m_op m); try discriminate; reflexivity).
-        destruct (prewrite_step_cases st ms p s 0 ttl mc ao) as [Esame|[es [Hsnd Hes]]].
-        { exfalso. rewrite Esame in Ex. rewrite <- Ex in H2. discriminate. }
-        assert (Hread : read_writes (ks_writes (get_ks st k)) s = None).
-        { destruct (insert_accepted_absent st ms p s ttl mc ao m es H0 Hop Hsnd Hes) as [Hget|[l [El _]]].
-          - rewrite get_unfold in Hget. rewrite H1 in Hget. unfold get_ks_value in Hget. rewrite H2 in Hget.
-            cbn [rd_resp] in Hget. inversion Hget; reflexivity.
-          - unfold lock_of in El. rewrite H1, H2 in El. discriminate. }
-        split; cbn [ks_lock ks_writes].
-        * intros l El _. inversion El; subst; assumption.
-        * intros l El _. split; [|exact Hread]. intros w Hw _.
-          pose proof (ccv_ok_below _ _ _ _ _ _ (wf_desc _ _ Hwk) H3 w Hw) as Hle. exact Hle.
-        * exact I2.
-      + split; cbn [ks_lock ks_writes].
-        * intros l El Es'. inversion El; subst. contradiction.
-        * intros l El Es'. inversion El; subst. contradiction.
-        * exact I2.
-    - (* prewrite over an own pessimistic lock: not for s *)
-      subst c. split; cbn [ks_lock ks_writes].
-      + intros l0 El Es'. inversion El; subst; assumption.
-      + intros l0 El Es'. inversion El; subst l0. exfalso. rewrite H5 in Es'. rewrite Es' in H3.
-        rewrite (I0 l H2 H3) in H4. discriminate.
-      + exact I2.
-    - (* pessimistic lock: not by s on k *)
-      subst c. cbn [ins_cmd_ok] in Hins.
-      assert (Hne : p_start r <> s).
-      { intros E. rewrite E, N.eqb_refl in Hins. cbn [negb orb] in Hins. apply negb_true_iff in Hins.
-        assert (existsb (fun kb => fst kb =? k) (p_keys r) = true); [|congruence].
-        apply existsb_exists. exists (k, ne). split; [exact H0|apply N.eqb_refl]. }
-      split; cbn [ks_lock ks_writes].
-      + intros l El Es'. inversion El; subst l. cbn [l_start] in Es'. contradiction.
-      + intros l El Es'. inversion El; subst l. cbn [l_start] in Es'. contradiction.
-      + exact I2.
+      subst c. split; cbn [ks_lock ks_writes]; [|exact I2].
+      intros l El Esl. inversion El; subst l. rewrite H5 in Esl. rewrite Esl in *. clear Esl.
+      cbn [ins_cmd_ok] in Hins. rewrite N.eqb_refl in Hins. cbn [negb orb] in Hins.
+      rewrite forallb_forall in Hins. specialize (Hins m H0). rewrite H1, N.eqb_refl in Hins. cbn [negb orb] in Hins.
+      apply andb_true_iff in Hins. destruct Hins as [Hop Hfu]. rewrite H3 in Hfu. rewrite orb_false_r in Hfu.
+      apply N.eqb_eq in Hfu. subst fu.
+      assert (Hop' : is_insert m = true) by (unfold is_insert; unfold is_ins_op in Hop; destruct (m_op m); try discriminate; reflexivity).
+      assert (Hp : gk_upd (g k) (ks_lock (get_ks st k)) (Some l') s = s).
+      { unfold gk_upd. rewrite H5, N.eqb_refl, H6, H2. reflexivity. }
+      rewrite Hp.
+      destruct (prewrite_step_cases st ms p s 0 ttl mc ao) as [Esame|[es [Hsnd Hes]]].
+      { exfalso. rewrite Esame in Ex. rewrite <- Ex in H2. discriminate. }
+      destruct (insert_accepted_absent st ms p s ttl mc ao m es H0 Hop' Hsnd Hes) as [Hget|[l [El' _]]].
+      + rewrite get_unfold in Hget. rewrite H1 in Hget. unfold get_ks_value in Hget. rewrite H2 in Hget.
+        cbn [rd_resp] in Hget. inversion Hget; reflexivity.
+      + unfold lock_of in El'. rewrite H1, H2 in El'. discriminate.
+    - (* prewrite over the own pessimistic lock: lock point and records stay *)
+      subst c. split; cbn [ks_lock ks_writes]; [|exact I2].
+      intros l0 El Esl. inversion El; subst l0. rewrite H5 in Esl. rewrite Esl in *. clear Esl.
+      rewrite H2. rewrite (gk_upd_keep (g k) l l' s); [apply (I1 l H2 H3)|congruence|intros Hp; congruence].
+    - (* pessimistic lock with the not-exist assertion *)
+      subst c. split; cbn [ks_lock ks_writes]; [|exact I2].
+      intros l El Esl. inversion El; subst l. cbn [l_start] in Esl.
+      cbn [ins_cmd_ok] in Hins. rewrite Esl, N.eqb_refl in Hins. cbn [negb orb] in Hins.
+      rewrite forallb_forall in Hins. specialize (Hins _ H0). cbn [fst snd] in Hins. rewrite N.eqb_refl in Hins.
+      cbn [negb orb] in Hins. subst ne.
+      cbn [pess_req_ok] in Hpreq. apply andb_true_iff in Hpreq. destruct Hpreq as [Hforce _]. apply negb_true_iff in Hforce.
+      rewrite Hforce in H2.
+      assert (Hp : forall old, gk_upd (g k) old (Some (mkLock (p_start r) (p_primary r) LPess 0 (p_ttl r) (p_for_update r) (p_min_commit r))) s
+                               = p_for_update r).
+      { intros old. unfold gk_upd. cbn [l_start is_pess l_op op_eqb l_for_update]. rewrite Esl, N.eqb_refl. reflexivity. }
+      rewrite Hp. eapply ccv_notexist_read; [exact (wf_desc _ _ Hwk)|exact H2].
     - (* unlock *)
       split; cbn [ks_lock ks_writes]; try (intros; discriminate). exact I2.
     - (* commit of the lock holder l at cm *)
       assert (Hp : In (l_start l, cm) (w_pairs W)) by (apply Hcp; exact H0).
-      pose proof (wo_lt W HW _ _ Hp) as Hlt.
       set (w0 := mkWrite (wkind_of_op (l_op l)) (l_start l) cm (l_value l)) in *.
       assert (Hinert : forall t, t < cm -> read_writes (put_write w0 (ks_writes (get_ks st k))) t = read_writes (ks_writes (get_ks st k)) t).
       { intros t Ht. apply read_put_inert; cbn [w_commit w0]; [right; exact Ht|]. intros y Hy Ec. right. lia. }
+      pose proof (ki_pt _ _ _ Hkinv l H cm Hp) as Hpt.
       split; cbn [ks_lock ks_writes]; try (intros; discriminate).
       intros w Hw Esw Ekw. apply put_write_in in Hw. destruct Hw as [E|Hw].
-      + subst w. cbn [w_start w_commit w0] in *. rewrite Hinert by lia.
-        destruct (I1 l H Esw) as [Hbelow Hread].
-        rewrite (read_top _ (cm - 1) s); [exact Hread| |exact Hbelow].
-        intros y Hy Hd. specialize (Hbelow y Hy Hd). lia.
+      + subst w. cbn [w_start w_commit w0] in *. rewrite Hinert by lia. rewrite Esw in *.
+        rewrite (read_top _ (cm - 1) (g k s)); [apply (I1 l H Esw)| |].
+        * intros y Hy Hd. pose proof (ki_lock _ _ _ Hkinv l H y Hy (data_nonrb y Hd)). rewrite Esw in *. lia.
+        * intros y Hy Hd. pose proof (ki_lock _ _ _ Hkinv l H y Hy (data_nonrb y Hd)). rewrite Esw in *. lia.
       + pose proof (ki_lock _ _ _ Hkinv l H w Hw (put_nonrb w Ekw)) as H1'.
-        pose proof (ki_pt _ _ _ Hkinv l H cm Hp) as H2'.
         rewrite Hinert by lia. apply I2; assumption.
     - (* rollback record *)
       assert (Hs0 : In s0 (w_starts W)) by (apply Hcs; exact H).
@@ -141,36 +149,32 @@ Section InsPoint.
                                In w (ks_writes (get_ks st k))).
       { intros w Hin Hr. apply put_write_in in Hin. destruct Hin as [E|Hin]; [subst w; discriminate|exact Hin]. }
       split; cbn [ks_lock ks_writes].
-      + intros l El Es'. destruct H0 as [E|E]; rewrite E in El; [discriminate|]. eapply I0; eassumption.
-      + intros l El Es'. destruct H0 as [E|E]; rewrite E in El; [discriminate|].
-        destruct (I1 l El Es') as [Hbelow Hread]. split; [|rewrite Hinert; exact Hread].
-        intros w Hw Hd. apply Hbelow; [|exact Hd]. apply Hsub; [exact Hw|apply data_nonrb; exact Hd].
+      + intros l El Esl. destruct H0 as [E|E]; rewrite E in El; [discriminate|]. rewrite E.
+        rewrite (gk_upd_same W _ _ s Hkinv). rewrite Hinert. eapply I1; eassumption.
       + intros w Hw Esw Ekw. rewrite Hinert. apply I2; [|exact Esw|exact Ekw]. apply Hsub; [exact Hw|apply put_nonrb; exact Ekw].
     - (* other lock fields *)
-      assert (Hpe : is_pess l' = is_pess l) by (unfold is_pess; rewrite H1; reflexivity).
-      split; cbn [ks_lock ks_writes].
-      + intros l0 El Es'. inversion El; subst l0. rewrite Hpe. apply (I0 l H). congruence.
-      + intros l0 El Es'. inversion El; subst l0. apply (I1 l H). congruence.
-      + exact I2.
+      split; cbn [ks_lock ks_writes]; [|exact I2].
+      intros l0 El Esl. inversion El; subst l0. rewrite H.
+      rewrite (gk_upd_keep (g k) l l' s); [apply (I1 l H); congruence|exact H0|].
+      intros Hp. rewrite H2. apply (ki_pess _ _ _ Hkinv l H). unfold is_pess in *. rewrite <- H1. exact Hp.
     - (* gc *)
       split; cbn [ks_lock ks_writes].
-      + exact I0.
-      + intros l El Es'. destruct (I1 l El Es') as [Hbelow Hread]. split.
-        * intros w Hw Hd. apply gc_writes_in in Hw. apply Hbelow; assumption.
-        * apply gc_none_stays; [exact (wf_desc _ _ Hwk)|exact Hread].
+      + intros l El Esl. rewrite (gk_upd_same W _ _ s Hkinv). apply gc_none_stays; [exact (wf_desc _ _ Hwk)|]. eapply I1; eassumption.
       + intros w Hw Esw Ekw. apply gc_writes_in in Hw. apply gc_none_stays; [exact (wf_desc _ _ Hwk)|]. apply I2; assumption.
+    - (* delete range *)
+      apply iinv_empty.
   Qed.
 
   Lemma run_from_iinv : forall b st g, wf_store W st -> (forall c, In c b -> cmd_in W c) ->
     disciplined_from st b = true -> forallb (pess_req_ok (w_pairs W)) b = true -> forallb (ins_cmd_ok k s) b = true ->
-    ginv W st g -> iinv (get_ks st k) -> iinv (get_ks (run_from st b) k).
+    ginv W st g -> iinv (get_ks st k) (g k s) -> iinv (get_ks (run_from st b) k) (ghost_run g st b k s).
   Proof.
-    induction b as [|c r IH]; intros st g Hwf Hin Hd Hp Hins Hg Hi; cbn [run_from fold_left]; [exact Hi|].
+    induction b as [|c r IH]; intros st g Hwf Hin Hd Hp Hins Hg Hi; cbn [run_from fold_left ghost_run]; [exact Hi|].
     cbn [disciplined_from] in Hd. apply andb_true_iff in Hd. destruct Hd as [Hreq Hd].
     cbn [forallb] in Hp, Hins. apply andb_true_iff in Hp. destruct Hp as [Hp1 Hp].
     apply andb_true_iff in Hins. destruct Hins as [Hi1 Hins].
     assert (Hc : cmd_in W c) by (apply Hin; left; reflexivity).
-    apply (IH _ (ghost_upd g st (fst (step st c)))).
+    apply IH.
     - apply step_wf; assumption.
     - intros c' Hc'. apply Hin; right; exact Hc'.
     - exact Hd.
@@ -187,11 +191,11 @@ Lemma insert_commit_point cmds k s : oracle_ts cmds = true -> ww_discipline cmds
 Proof.
   intros Ho Hd Hins w Hw Es Ek. rewrite <- read_is_history.
   unfold oracle_ts in Ho. apply andb_true_iff in Ho. destruct Ho as [HW Hdis]. apply world_ok_spec in HW.
-  assert (Hi : iinv s (get_ks (run cmds) k)).
-  { rewrite run_is_run_from. apply run_from_iinv with (W := world_of cmds) (g := ghost0); auto.
+  assert (Hi : iinv s (get_ks (run cmds) k) (lock_point cmds k s)).
+  { unfold lock_point. rewrite run_is_run_from. apply run_from_iinv with (W := world_of cmds); auto.
     - apply wf_store_nil.
     - intros c Hc. apply cmd_in_world_of; exact Hc.
     - intros k0. apply kinv_empty.
     - apply iinv_empty. }
-  unfold read_at, writes_of. rewrite (ii_rec _ _ Hi w Hw Es Ek). reflexivity.
+  unfold read_at, writes_of. rewrite (ii_rec _ _ _ Hi w Hw Es Ek). reflexivity.
 Qed.
